@@ -33,6 +33,7 @@ def plan(tier, seed):
     n = 8 if tier == "quick" else 32
     specs = [{"kind": "roundtrip", "n": 1800 if tier == "quick" else 12000} for _ in range(n)]
     specs += [{"kind": "ladder"}]
+    specs += [{"kind": "mutrender", "n": 500 if tier == "quick" else 5000} for _ in range(2 if tier == "quick" else 6)]
     specs += [{"kind": "intpayload", "n": 400 if tier == "quick" else 4000} for _ in range(2 if tier == "quick" else 4)]
     return specs
 
@@ -340,7 +341,85 @@ def run_intpayload(spec, ctx):
     ctx.extras["int_invariant_via"] = mon.how
 
 
+MUTATIONS = {
+    "map": [("m[{K}] = {V}", "set"), ("put(m, {K}, {V})", "set"), ("m[{K}, 0] += 1", "inc"), ("remove(m, {E})", "del"),
+            ("m[{E}] = {V}", "overwrite")],
+    "set": [("append(m, {K})", "add"), ("remove(m, {E})", "del"), ("remove(m, {E}); append(m, {K})", "swap")],
+    "list": [("append(m, {K})", "add"), ("m[0] = {K}", "setfirst"), ("delete_at(m, 0)", "delfirst"), ("insert_at(m, 0, {K})", "ins")],
+}
+
+
+def run_mutate_rerender(spec, ctx):
+    """the text form depends only on the value: render (forcing any cached view), mutate through every mutator,
+    render again; the text must be that of a freshly built equal value and must still read back"""
+    import ckl.functions
+    r = ctx.rng
+    it, out = core.new_interpreter(secure=True, legacy=True)
+    for _ in range(spec["n"]):
+        kind = r.choice(["map", "map", "set", "list"])
+        elems = r.sample([1, 2, 3, 5, 8, 13, 21, 34], r.randint(1, 4))
+        newk = r.choice([4, 6, 7, 0, -1, 100])
+        e = r.choice(elems)
+        v = r.randint(50, 60)
+        if kind == "map":
+            lit0 = "<<< " + ", ".join("%d => %d" % (k, k * 10) for k in elems) + " >>>"
+        elif kind == "set":
+            lit0 = "<< " + ", ".join(map(str, elems)) + " >>"
+        else:
+            lit0 = "[" + ", ".join(map(str, elems)) + "]"
+        mut, what = r.choice(MUTATIONS[kind])
+        mut = mut.replace("{K}", str(newk)).replace("{V}", str(v)).replace("{E}", str(e))
+        # expected value, built fresh
+        if kind == "map":
+            d = {k: k * 10 for k in elems}
+            if what == "set":
+                d[newk] = v
+            elif what == "inc":
+                d[newk] = d.get(newk, 0) + 1
+            elif what == "del":
+                d.pop(e)
+            else:
+                d[e] = v
+            fresh = "<<< " + ", ".join("%d => %d" % kv for kv in sorted(d.items(), key=lambda kv: -kv[0])) + " >>>"
+        elif kind == "set":
+            st = list(elems)
+            if what in ("del", "swap"):
+                st.remove(e)
+            if what in ("add", "swap"):
+                st.append(newk)
+            fresh = "<< " + ", ".join(map(str, reversed(st))) + " >>"
+        else:
+            ls = list(elems)
+            if what == "add":
+                ls.append(newk)
+            elif what == "setfirst":
+                ls[0] = newk
+            elif what == "delfirst":
+                ls.pop(0)
+            else:
+                ls.insert(0, newk)
+            fresh = "[" + ", ".join(map(str, ls)) + "]"
+        touch = r.choice(["string(m)", "[x for x in m]", "string([m])", "def o = [...m]", "m == 1", "for x in m do x end"])
+        if kind == "map" and "..." in touch:
+            touch = "string(object(m))"
+        src = ("def m = %s; %s; %s; def f = %s; [m == f, string(m) == string(f), eval(string(m)) == f, string(eval(string(m))) == string(m), string(m)]"
+               % (lit0, touch, mut, fresh))
+        env = ckl.functions.Environment()
+        o = observe(lambda: it.interpret(src, "c08", env), 600000)
+        ctx.count("mutate_rerender_programs")
+        ctx.case(("mutrender", src))
+        if o.kind != "value":
+            ctx.violation("C08:mutate-rerender:error:" + kind, "%s -> %s %s" % (src, o.kind, core.safe_str(o.exc, 100)), {"src": src})
+            continue
+        flags = [x.value for x in o.value.value[:4]]
+        if flags != [True, True, True, True]:
+            ctx.violation("C08:mutate-rerender:%s:%s" % (kind, what), "%s -> %s" % (src, core.safe_str(o.value)), {"src": src})
+    ctx.sample({"mutate_rerender": src})
+
+
 def run_shard(spec, ctx):
+    if spec["kind"] == "mutrender":
+        return run_mutate_rerender(spec, ctx)
     if spec["kind"] == "intpayload":
         run_intpayload(spec, ctx)
         return
@@ -355,7 +434,7 @@ def run_shard(spec, ctx):
 def finalize(merged, tier):
     c = merged["counters"]
     reasons = []
-    for k in ("renderings", "roundtrips", "string_relex", "literal_evaluations", "int_invariant_evaluations"):
+    for k in ("renderings", "roundtrips", "string_relex", "literal_evaluations", "int_invariant_evaluations", "mutate_rerender_programs"):
         if c.get(k, 0) == 0:
             reasons.append("monitor counter %s is zero" % k)
     extra = {"exhaustive_subspace": "decimal magnitude ladder: 5 mantissas x every decimal exponent -324..308 x both signs; powers of two to 2^79"}
